@@ -20,7 +20,7 @@ TRANSLATE = True
 TRANSLATE_ALGO = ["AlgoTraverse", "AlgoNode", "AlgoBranches", "AlgoSubtree", "AlgoLMeasure", "AlgoSholl", "AlgoFeatFront", "AlgoBranchTree", "AlgoNodeFeat", "AlgoNodeBranch", "AlgoLmGeo"]
 DRIVER_FILES = ["SwcVerif/Model/AlgoRunLMeasure.lean", "SwcVerif/Model/AlgoRunLmGeo.lean", "SwcVerif/Model/PyLmGeo.lean", "SwcVerif/Model/PyMore.lean", "SwcVerif/Model/AlgoRunSholl.lean", "SwcVerif/Model/PySholl.lean",
                 "SwcVerif/Model/PyResample.lean", "SwcVerif/Model/AlgoRunNodeFeat.lean", "SwcVerif/Model/PyNodeFeat.lean"]
-LEAN_MODS = ["SwcVerif.Props.C10", "SwcVerif.Proofs.Represent", "SwcVerif.Props.C10Gen", "SwcVerif.Props.C10Sholl", "SwcVerif.Props.C10NodeFeat", "SwcVerif.Props.C10LmGeo"]
+LEAN_MODS = ["SwcVerif.Props.C10", "SwcVerif.Proofs.Represent", "SwcVerif.Props.C10Gen", "SwcVerif.Props.C10Sholl", "SwcVerif.Props.C10NodeFeat", "SwcVerif.Props.C10NodeFeat2", "SwcVerif.Props.C10LmGeo"]
 THEOREMS = [
     "C10.length_eq_sum_edges", "C10.chainLength_eq", "C10.length_eq_sum_branches", "C10.branches_eq", "C10.counts", "C10.path_distance_eq_sum",
     "C10.branch_order_eq_furcations_on_path", "C10.terminal_degree_eq_tips_below", "C10.sholl_eq_straddle_count", "C10.partition_asymmetry_def",
@@ -42,6 +42,14 @@ THEOREMS = [
     "RefineNf.radial_refines", "RefineNf.node_count_refines",
     "C10.generated_tree_length", "C10.generated_tortuosity", "C10.generated_straight_line_distance", "C10.generated_radial_distance",
     "C10.generated_node_count",
+    # refinement (T28 `nodefeat2`): branch order = depth in the branch tree, furcation / tip masks and subset features, Path.length on arbitrary
+    # row lists, BranchFeatures.get_length, and the sum of the translated branch lengths = the translated Tree.length
+    "RefineNf2.assign_depth_eq", "RefineNf2.spec_depth", "RefineNf2.branch_order_refines", "RefineNf2.furcation_nodes_refines",
+    "RefineNf2.tip_nodes_refines", "RefineNf2.subset_count_refines", "RefineNf2.subset_radial_refines", "RefineNf2.path_length_refines",
+    "RefineNf2.bf_length_refines",
+    "C10.generated_nf_branch_order", "C10.generated_nf_branch_order_tree", "C10.generated_furcation_nodes", "C10.generated_tip_nodes",
+    "C10.generated_furcation_count", "C10.generated_tip_count", "C10.generated_furcation_radial", "C10.generated_tip_radial",
+    "C10.generated_path_length", "C10.generated_bf_length", "C10.generated_sum_branch_lengths_eq_tree_length",
     # refinement (T21 `lmgeo`): the geometric L-Measure functions generated from lmeasure.py / node.py / path.py on this run
     "RefineLmGeo.node_xyz_eq", "RefineLmGeo.node_distance_eq", "RefineLmGeo.pathDistance_refines", "RefineLmGeo.eucDistance_refines",
     "RefineLmGeo.diameter_refines", "RefineLmGeo.rallPowerD_refines", "RefineLmGeo.rallPowerD_not_bif", "RefineLmGeo.rallPowerD_root",
